@@ -74,6 +74,7 @@ func Worker(specs ...*Spec) {
 type Stats struct {
 	States, Transitions, MaxDepth, Checks int
 	Exhaustive                            bool
+	Reps                                  [][]int // one (shortest) history per distinct state
 }
 
 // BFS runs the search from the empty history and reports violations through run.
@@ -147,6 +148,7 @@ func BFS(run *ev.Run, s *Spec) Stats {
 			}
 			seen[o.Digest] = true
 			st.States++
+			st.Reps = append(st.Reps, h)
 			if len(h) > st.MaxDepth {
 				st.MaxDepth = len(h)
 			}
